@@ -227,6 +227,37 @@ static jd_list_t *class_list(jd_t *d, const jd_chunk_t *c) {
 }
 
 /* rule 3: doubly linked lists */
+/* follow item_next from chunk 'start', appending to list l */
+static void follow_list(jd_t *d, jd_list_t *l, size_t start) {
+    uint32_t k = chunk_class(&d->ch[start]);
+    size_t cur = start;
+    for (;;) {
+        jd_chunk_t *cc = &d->ch[cur];
+        cc->visited = 1;
+        list_add(l, cur);
+        if (!cc->next) break;
+        size_t nx = jd_find(d, cc->next);
+        if (nx == (size_t) -1) {
+            jd_err(d, "R3.next-target", "item_next of chunk at %llu (tag 0x%02x meta 0x%04x) = %llu is not a chunk start",
+                   (unsigned long long) cc->off, cc->tag, cc->meta, (unsigned long long) cc->next);
+            break;
+        }
+        jd_chunk_t *nc = &d->ch[nx];
+        if (nx <= cur) { jd_err(d, "R3.next-order", "item_next goes backwards at %llu", (unsigned long long) cc->off); break; }
+        if (chunk_class(nc) != k) {
+            jd_err(d, "R3.next-class", "item_next of %llu (tag 0x%02x meta 0x%04x) leads to tag 0x%02x meta 0x%04x at %llu",
+                   (unsigned long long) cc->off, cc->tag, cc->meta, nc->tag, nc->meta, (unsigned long long) nc->off);
+            break;
+        }
+        if (nc->prev != cc->off) {
+            jd_err(d, "R3.mutual", "chunk at %llu (tag 0x%02x meta 0x%04x) item_prev %llu but reached from %llu",
+                   (unsigned long long) nc->off, nc->tag, nc->meta, (unsigned long long) nc->prev, (unsigned long long) cc->off);
+        }
+        cur = nx;
+    }
+}
+
+/* rule 3, phase A: the lists that start at fixed places (sources, signals incl. track DEF/HEAD, user data) */
 static void walk_lists(jd_t *d) {
     for (size_t i = 0; i < d->n; ++i) {
         jd_chunk_t *c = &d->ch[i];
@@ -243,46 +274,56 @@ static void walk_lists(jd_t *d) {
             if ((ck == JD_CK_DEF || ck == JD_CK_HEAD || ck == JD_CK_DATA) && (c->meta >> 12))
                 jd_err(d, "R0.meta", "level bits set on non-level chunk at %llu: 0x%04x", (unsigned long long) c->off, c->meta);
         }
+        if (k & 0x1000000u) continue;   /* track DATA/INDEX/SUMMARY lists start from the HEAD tables: phase B */
         if (c->visited) continue;
-        /* first unvisited chunk of a class in file order */
+        /* first unvisited chunk of the class in file order is the list head */
         jd_list_t *l = class_list(d, c);
-        if (l->n) {
-            /* the class already has a list: this chunk is not reachable from it */
-            d->orphans++;
-            continue;
-        }
+        if (l->n) { d->orphans++; continue; }   /* the class already has a list: this chunk is not reachable from it */
         if (c->prev) jd_err(d, "R3.head-prev", "first chunk of list (tag 0x%02x meta 0x%04x) at %llu has item_prev %llu",
                             c->tag, c->meta, (unsigned long long) c->off, (unsigned long long) c->prev);
-        size_t cur = i;
-        for (;;) {
-            jd_chunk_t *cc = &d->ch[cur];
-            cc->visited = 1;
-            list_add(l, cur);
-            if (!cc->next) break;
-            size_t nx = jd_find(d, cc->next);
-            if (nx == (size_t) -1) {
-                jd_err(d, "R3.next-target", "item_next of chunk at %llu (tag 0x%02x meta 0x%04x) = %llu is not a chunk start",
-                       (unsigned long long) cc->off, cc->tag, cc->meta, (unsigned long long) cc->next);
-                break;
+        follow_list(d, l, i);
+    }
+}
+
+/* rule 3, phase B: per-track lists, starting from the track HEAD tables (parsed by parse_defs) */
+static void walk_track_lists(jd_t *d) {
+    for (int sg = 0; sg < 256; ++sg) {
+        jd_signal_t *s = &d->sig[sg];
+        for (int tt = 0; tt < 4; ++tt) {
+            if (!s->have_head[tt]) continue;
+            for (int l = 0; l < JD_LEVELS; ++l) {
+                uint64_t h = s->head[tt][l];
+                if (!h) continue;
+                size_t hi = jd_find(d, h);
+                int want_ck = l == 0 ? JD_CK_DATA : JD_CK_INDEX;
+                if (hi == (size_t) -1) { jd_err(d, "R4.head-dangling", "signal %d track %d head[%d]=%llu is not a chunk start", sg, tt, l, (unsigned long long) h); continue; }
+                jd_chunk_t *c = &d->ch[hi];
+                if (!is_track_tag(c->tag) || tag_tt(c->tag) != tt || tag_ck(c->tag) != want_ck || c->meta != (uint16_t) (sg | (l << 12))) {
+                    jd_err(d, "R4.head-wrong", "signal %d track %d head[%d]=%llu leads to tag 0x%02x meta 0x%04x", sg, tt, l, (unsigned long long) h, c->tag, c->meta);
+                    continue;
+                }
+                if (c->prev) jd_err(d, "R4.head-not-first", "signal %d track %d head[%d]=%llu is not the first chunk of its list (item_prev %llu)", sg, tt, l, (unsigned long long) h, (unsigned long long) c->prev);
+                jd_list_t *lst = l == 0 ? &s->data[tt] : &s->index[tt][l];
+                if (c->visited || lst->n) continue;
+                follow_list(d, lst, hi);
+                if (l > 0 && hi + 1 < d->n) {
+                    /* the summary list starts with the SUMMARY that follows the first INDEX */
+                    jd_chunk_t *sc = &d->ch[hi + 1];
+                    if (is_track_tag(sc->tag) && tag_tt(sc->tag) == tt && tag_ck(sc->tag) == JD_CK_SUMMARY && sc->meta == c->meta && !sc->visited) {
+                        if (sc->prev) jd_err(d, "R3.head-prev", "first SUMMARY of signal %d track %d level %d at %llu has item_prev %llu", sg, tt, l, (unsigned long long) sc->off, (unsigned long long) sc->prev);
+                        follow_list(d, &s->summary[tt][l], hi + 1);
+                    }
+                }
             }
-            jd_chunk_t *nc = &d->ch[nx];
-            if (nx <= cur) { jd_err(d, "R3.next-order", "item_next goes backwards at %llu", (unsigned long long) cc->off); break; }
-            if (chunk_class(nc) != k) {
-                jd_err(d, "R3.next-class", "item_next of %llu (tag 0x%02x meta 0x%04x) leads to tag 0x%02x meta 0x%04x at %llu",
-                       (unsigned long long) cc->off, cc->tag, cc->meta, nc->tag, nc->meta, (unsigned long long) nc->off);
-                break;
-            }
-            if (nc->prev != cc->off) {
-                jd_err(d, "R3.mutual", "chunk at %llu (tag 0x%02x meta 0x%04x) item_prev %llu but reached from %llu",
-                       (unsigned long long) nc->off, nc->tag, nc->meta, (unsigned long long) nc->prev, (unsigned long long) cc->off);
-            }
-            cur = nx;
         }
     }
-    /* second pass: a chunk whose item_prev names a chunk that does not point back */
+    /* whatever track chunk was not reached is unreferenced */
+    for (size_t i = 0; i < d->n; ++i) if (!d->ch[i].visited && (chunk_class(&d->ch[i]) & 0x1000000u)) d->orphans++;
+    /* a chunk whose item_prev names a chunk that does not point back */
     for (size_t i = 0; i < d->n; ++i) {
         jd_chunk_t *c = &d->ch[i];
         if (!c->prev || c->tag == 0xFF) continue;
+        if (!c->visited) continue;   /* unreachable chunk (counted in d->orphans): its own back pointer is not part of any list */
         size_t p = jd_find(d, c->prev);
         if (p == (size_t) -1) {
             jd_err(d, "R3.prev-target", "item_prev of chunk at %llu = %llu is not a chunk start", (unsigned long long) c->off, (unsigned long long) c->prev);
@@ -431,18 +472,7 @@ static void check_tracks(jd_t *d) {
             if (!any && !s->have_head[tt]) continue;
             if (any && !s->present) { jd_err(d, "R6.data-nosignal", "track %d data for undefined signal %d", tt, sg); continue; }
             if (any && !s->have_head[tt]) { jd_err(d, "R4.head-absent", "signal %d track %d has chunks but no HEAD", sg, tt); continue; }
-            /* head table */
-            for (int l = 0; l < JD_LEVELS; ++l) {
-                const jd_list_t *lst = (l == 0) ? &s->data[tt] : &s->index[tt][l];
-                uint64_t h = s->head[tt][l];
-                if (lst->n == 0) {
-                    if (h) jd_err(d, "R4.head-dangling", "signal %d track %d head[%d]=%llu but no such chunks", sg, tt, l, (unsigned long long) h);
-                } else {
-                    uint64_t first = d->ch[lst->idx[0]].off;
-                    if (h == 0) jd_err(d, "R4.head-missing", "signal %d track %d head[%d]=0 but first chunk at %llu", sg, tt, l, (unsigned long long) first);
-                    else if (h != first) jd_err(d, "R4.head-wrong", "signal %d track %d head[%d]=%llu, first chunk at %llu", sg, tt, l, (unsigned long long) h, (unsigned long long) first);
-                }
-            }
+            /* head table entries were validated while the lists were built (walk_track_lists) */
             if (s->summary[tt][0].n || s->index[tt][0].n) jd_err(d, "R5.level0", "signal %d track %d has level-0 index/summary", sg, tt);
             /* payload headers of DATA chunks */
             for (size_t k = 0; k < s->data[tt].n; ++k) {
@@ -578,6 +608,7 @@ int jd_decode(jd_t *d) {
     walk_chunks(d);
     walk_lists(d);
     parse_defs(d);
+    walk_track_lists(d);
     check_tracks(d);
     return d->nerr_total;
 }
